@@ -84,13 +84,13 @@ def build_harness():
 
 # ------------------------------------------------------------------------------------------ TLC
 
-def tlc_mc(module, env, workers=8, timeout=1800, emit=True):
+def tlc_mc(module, env, workers=8, timeout=1800, emit=True, invariants=None):
     """Model-checks spec/<module>.tla with its .cfg under `env`; output depends only on the spec,
     so it is cached by the hash of spec + env."""
     envs = dict(env)
     if emit:
         envs['V_EMIT'] = '1'
-    key = hashlib.sha256((spec_hash() + module + json.dumps(envs, sort_keys=True)).encode()).hexdigest()[:20]
+    key = hashlib.sha256((spec_hash() + module + json.dumps(envs, sort_keys=True) + json.dumps(invariants)).encode()).hexdigest()[:20]
     d = os.path.join(BUILD, 'cache', 'mc', key)
     statf = os.path.join(d, 'stats.json')
     if os.path.exists(statf):
@@ -101,9 +101,29 @@ def tlc_mc(module, env, workers=8, timeout=1800, emit=True):
     meta = os.path.join(d, 'meta')
     out = os.path.join(d, 'out.txt')
     t0 = time.time()
+    cfgpath = os.path.join(SPEC, module + '.cfg')
+    if invariants is not None:
+        # a witness run: same constants, only the listed invariants
+        lines = open(cfgpath).read().splitlines()
+        keep = []
+        skipping = False
+        for ln in lines:
+            if ln.startswith('INVARIANTS') or ln.startswith('INVARIANT '):
+                skipping = True
+                continue
+            if skipping and ln.startswith('  '):
+                continue
+            skipping = False
+            if ln.startswith('PROPERTY') or ln.startswith('ACTION_CONSTRAINT'):
+                continue
+            keep.append(ln)
+        keep.append('INVARIANTS')
+        keep.extend('  ' + i for i in invariants)
+        cfgpath = os.path.join(d, module + '_wit.cfg')
+        open(cfgpath, 'w').write('\n'.join(keep) + '\n')
     with open(out, 'w') as f:
         p = subprocess.run(['timeout', str(timeout), 'tlc', '-workers', str(workers), '-metadir', meta, '-cleanup',
-                            '-noGenerateSpecTE', '-config', os.path.join(SPEC, module + '.cfg'),
+                            '-noGenerateSpecTE', '-config', cfgpath,
                             os.path.join(SPEC, module + '.tla')],
                            env={**os.environ, **{k: str(v) for k, v in envs.items()}}, stdout=f,
                            stderr=subprocess.STDOUT, cwd=d)
@@ -178,10 +198,12 @@ def q(**kw):
 # Model-checking configurations per planner and tier. Every entry is explored exhaustively by TLC
 # with the deviation switches in the property-satisfying position; every emitted history is then
 # executed on the real planner and validated by the monitor.
+REG = dict(V_TOPO='ring', V_N=8, V_PROBLEMS='region', V_WORLDS='free', V_MAXD=2, V_MAXT=2, V_BIAS='0', V_RAD2=5, V_MAXCALLS=2)
 LAT_CONFIGS = {
     'rrt': {
         'module': 'MC_RRT',
         'quick': [
+            ('ring8-convex-bounds', q(**{**REG, 'V_REGION_HI': 4})),
             ('line5-allworlds', q(V_TOPO='line', V_N=5, V_MAXD=2, V_LVS=1, V_BIAS='p', V_MAXT=3, V_MAXCALLS=2, V_WORLDS='all')),
             ('ring6-few', q(V_TOPO='ring', V_N=6, V_MAXD=2, V_LVS=2, V_BIAS='0', V_MAXT=3, V_MAXCALLS=2, V_WORLDS='few')),
             ('line5-api', q(V_TOPO='line', V_N=5, V_MAXD=2, V_LVS=1, V_BIAS='1', V_MAXT=1, V_MAXCALLS=4, V_WORLDS='few', V_PROBLEMS='one')),
@@ -196,6 +218,7 @@ LAT_CONFIGS = {
     'rrtstar': {
         'module': 'MC_RRTStar',
         'quick': [
+            ('ring8-convex-bounds', q(**{**REG, 'V_REGION_HI': 4})),
             ('line5-allworlds', q(V_TOPO='line', V_N=5, V_MAXD=2, V_RAD2=5, V_LVS=1, V_BIAS='p', V_MAXT=2, V_MAXCALLS=2, V_WORLDS='all')),
             ('ring6-rewire', q(V_TOPO='ring', V_N=6, V_MAXD=2, V_RAD2=3, V_LVS=1, V_BIAS='0', V_MAXT=3, V_MAXCALLS=2, V_WORLDS='few', V_PROBLEMS='one')),
         ],
@@ -209,6 +232,7 @@ LAT_CONFIGS = {
     'rrtc': {
         'module': 'MC_RRTConnect',
         'quick': [
+            ('ring8-convex-bounds', q(**{**REG, 'V_REGION_HI': 4})),
             ('line5-allworlds', q(V_TOPO='line', V_N=5, V_MAXD=2, V_LVS=1, V_BIAS='p', V_MAXT=2, V_MAXCALLS=2, V_WORLDS='all')),
             ('ring6-few', q(V_TOPO='ring', V_N=6, V_MAXD=1, V_LVS=1, V_BIAS='0', V_MAXT=3, V_MAXCALLS=2, V_WORLDS='few', V_PROBLEMS='one')),
         ],
@@ -236,13 +260,24 @@ LAT_CONFIGS = {
 # As-pinned witnesses (DESIGN 5.0): the switch in the position of the pinned code MUST give a TLC
 # counterexample - the finding in the spec's own terms and a non-vacuity check of the invariant.
 WITNESSES = {
-    'rrt': [('ValidateRoots=FALSE', 'MC_RRT', q(V_VALIDATE_ROOTS=0, V_WORLDS='few', V_PROBLEMS='one', V_BIAS='0'), ['C01_PathValid']),
-            ('RestoreRng=FALSE', 'MC_RRT', q(V_RESTORE_RNG=0, V_WORLDS='free', V_PROBLEMS='one', V_BIAS='0', V_MAXCALLS=3, V_MAXT=0), ['C07_Provenance'])],
-    'rrtstar': [('ValidateRoots=FALSE', 'MC_RRTStar', q(V_VALIDATE_ROOTS=0, V_WORLDS='few', V_PROBLEMS='one', V_BIAS='0'), ['C01_PathValid']),
-                ('RewireStrict=FALSE', 'MC_RRTStar', q(V_REWIRE_STRICT=0, V_WORLDS='few', V_PROBLEMS='one', V_BIAS='0', V_MAXT=3), ['C15_WellFormed'])],
-    'rrtc': [('ValidateRoots=FALSE', 'MC_RRTConnect', q(V_VALIDATE_ROOTS=0, V_WORLDS='few', V_PROBLEMS='one', V_BIAS='0'), ['C01_PathValid']),
-             ('SetupUsesPlannerRng=FALSE', 'MC_RRTConnect', q(V_SETUP_PLANNER_RNG=0, V_WORLDS='free', V_PROBLEMS='one', V_BIAS='0', V_MAXT=0), ['C07_Provenance'])],
-    'prm': [('RestoreRng=FALSE', 'MC_PRM', q(V_RESTORE_RNG=0, V_WORLDS='free', V_PROBLEMS='one', V_MAXCALLS=4, V_BUILD=0), ['C07_Provenance'])],
+    # (name, module, env, invariants expected to be violated, invariants to check (None = the module's own list))
+    'rrt': [('ValidateRoots=FALSE (as pinned)', 'MC_RRT', q(V_VALIDATE_ROOTS=0, V_WORLDS='few', V_PROBLEMS='one', V_BIAS='0'), ['C01_PathValid'], None),
+            ('RestoreRng=FALSE (as pinned)', 'MC_RRT', q(V_RESTORE_RNG=0, V_WORLDS='free', V_PROBLEMS='one', V_BIAS='0', V_MAXCALLS=3, V_MAXT=0), ['C07_Provenance'], None),
+            ('non-convex bounds (ring arc 0..5 of 8)', 'MC_RRT', q(**{**REG, 'V_REGION_HI': 5}), ['W_AlwaysInRegion'], ['W_AlwaysInRegion'])],
+    'rrtstar': [('ValidateRoots=FALSE (as pinned)', 'MC_RRTStar', q(V_VALIDATE_ROOTS=0, V_WORLDS='few', V_PROBLEMS='one', V_BIAS='0'), ['C01_PathValid'], None),
+                ('RewireStrict=FALSE (<= mutant)', 'MC_RRTStar', q(V_REWIRE_STRICT=0, V_WORLDS='few', V_PROBLEMS='one', V_BIAS='0', V_MAXT=3), ['C15_WellFormed'], None),
+                ('rewiring reachable', 'MC_RRTStar', q(V_TOPO='ring', V_N=6, V_MAXD=2, V_RAD2=3, V_MAXT=4, V_WORLDS='few', V_PROBLEMS='one', V_BIAS='0'), ['W_NoRewire'], ['W_NoRewire']),
+                ('non-nearest parent reachable', 'MC_RRTStar', q(V_TOPO='ring', V_N=6, V_MAXD=2, V_RAD2=3, V_MAXT=3, V_WORLDS='few', V_PROBLEMS='one', V_BIAS='0'), ['W_ParentIsNearest'], ['W_ParentIsNearest']),
+                ('non-convex bounds', 'MC_RRTStar', q(**{**REG, 'V_REGION_HI': 5}), ['W_AlwaysInRegion'], ['W_AlwaysInRegion'])],
+    'rrtc': [('ValidateRoots=FALSE (as pinned)', 'MC_RRTConnect', q(V_VALIDATE_ROOTS=0, V_WORLDS='few', V_PROBLEMS='one', V_BIAS='0'), ['C01_PathValid'], None),
+             ('SetupUsesPlannerRng=FALSE (as pinned)', 'MC_RRTConnect', q(V_SETUP_PLANNER_RNG=0, V_WORLDS='free', V_PROBLEMS='one', V_BIAS='0', V_MAXT=0), ['C07_Provenance'], None),
+             ('direct route reachable', 'MC_RRTConnect', q(V_WORLDS='free', V_PROBLEMS='one', V_BIAS='p', V_MAXT=2), ['W_NoDirect'], ['W_NoDirect']),
+             ('join while growing start tree reachable', 'MC_RRTConnect', q(V_WORLDS='free', V_PROBLEMS='one', V_BIAS='p', V_MAXT=2), ['W_NoJoinStart'], ['W_NoJoinStart']),
+             ('join while growing goal tree reachable', 'MC_RRTConnect', q(V_WORLDS='free', V_PROBLEMS='one', V_BIAS='p', V_MAXT=3), ['W_NoJoinGoal'], ['W_NoJoinGoal']),
+             ('non-convex bounds', 'MC_RRTConnect', q(**{**REG, 'V_REGION_HI': 5}), ['W_AlwaysInRegion'], ['W_AlwaysInRegion'])],
+    'prm': [('RestoreRng=FALSE (as pinned)', 'MC_PRM', q(V_RESTORE_RNG=0, V_WORLDS='free', V_PROBLEMS='one', V_MAXCALLS=4, V_BUILD=0), ['C07_Provenance'], None),
+            ('successful query reachable', 'MC_PRM', q(V_WORLDS='free', V_PROBLEMS='one', V_MAXCALLS=3, V_BUILD=2), ['W_NoOk'], ['W_NoOk']),
+            ('multi-hop path reachable', 'MC_PRM', q(V_WORLDS='free', V_PROBLEMS='one', V_MAXCALLS=3, V_BUILD=2, V_RAD2=3), ['W_NoLongChain'], ['W_NoLongChain'])],
 }
 
 
@@ -310,10 +345,52 @@ def lattice_engine(planner, tier, seed, api=False):
         res['events'] += events
         for t in traces:
             os.remove(t)
-    for wname, module, env, expect in ([] if api else WITNESSES.get(planner, [])):
-        st = tlc_mc(module, env, emit=False, timeout=600)
+    for wname, module, env, expect, invs in ([] if api else WITNESSES.get(planner, [])):
+        st = tlc_mc(module, env, emit=False, timeout=600, invariants=invs)
         res['witnesses'].append({'switch': wname, 'expected_violation': expect, 'violated': st['violated'],
                                  'as_expected': any(e in st['violated'] for e in expect)})
+    return res
+
+
+# ---------------------------------------------------------------------------- real-space engine
+
+def real_engine(tier, seed):
+    """The real planners on the six real state spaces (generated worlds), every iteration recorded,
+    annotated to integers/ranks and validated by the TLC trace monitor."""
+    build_harness()
+    work = os.path.join(BUILD, 'work', f'real-{tier}')
+    shutil.rmtree(work, ignore_errors=True)
+    os.makedirs(work)
+    trace = os.path.join(work, 'real.trace')
+    nshards = 8 if tier == 'thorough' else 4
+    p = run([os.path.join(HARNESS_BIN, 'realrun'), '--out', trace, '--shards', str(nshards), '--seed', str(seed), '--tier', tier],
+            stdout=subprocess.DEVNULL, timeout=7200)
+    if p.returncode != 0:
+        raise ToolError('realrun failed: ' + p.stderr[-1500:])
+    info = json.loads(p.stderr.strip().splitlines()[-1])
+    index = {x['run']: x['desc'] for x in info['index']}
+    traces = [f'{trace}.{k}' for k in range(nshards)]
+    viols, events = tlc_monitor(traces, timeout=7200)
+    res = {'engine': 'real', 'planner': '*', 'configs': [], 'violations': [], 'samples': [], 'states': 0, 'transitions': 0,
+           'traces': info['runs'], 'events': events, 'witnesses': [], 'label_counts': {}}
+    for v in viols:
+        d = index.get(v['run'], {})
+        for lab in v['labels']:
+            res['label_counts'][lab] = res['label_counts'].get(lab, 0) + 1
+            cfg = f"{d.get('space')}/{d.get('world')}"
+            if sum(1 for x in res['violations'] if x['label'] == lab and x['cfg'] == cfg and x['planner'] == d.get('planner')) < 2:
+                res['violations'].append({'label': lab, 'planner': d.get('planner'), 'engine': 'real', 'cfg': cfg, 'run': v['run'],
+                                          'line': v['line'], 'mode': 'real', 'space': d.get('space'), 'world': d.get('world'),
+                                          'input': {'realrun': True, 'run': v['run'], 'seed': seed, 'tier': tier, 'desc': d}})
+    spaces = {}
+    for d in index.values():
+        k = d['space']
+        spaces[k] = spaces.get(k, 0) + 1
+    res['configs'].append({'name': 'real-spaces', 'runs': info['runs'], 'events': events, 'runs_per_space': spaces,
+                           'distinct_final_snapshots': info['runs'], 'states': 0, 'transitions': 0})
+    res['samples'] = [{'run': r, 'scenario': index[r]} for r in sorted(index)[:3]]
+    for t in traces:
+        os.remove(t)
     return res
 
 
@@ -323,18 +400,20 @@ TREE = ['lat:rrt', 'lat:rrtstar', 'lat:rrtc']
 ALL4 = TREE + ['lat:prm']
 API4 = ['api:rrt', 'api:rrtstar', 'api:rrtc', 'api:prm']
 
+REAL = ['real']
 PROPS = {
-    'C01': {'prefixes': ['C01/'], 'engines': ALL4, 'level': 'model_checking'},
-    'C02': {'prefixes': ['C02/'], 'engines': ALL4, 'level': 'model_checking'},
-    'C03': {'prefixes': ['C03/'], 'engines': ALL4, 'level': 'model_checking'},
-    'C05': {'prefixes': ['C05/'], 'engines': ALL4, 'level': 'model_checking'},
-    'C06': {'prefixes': ['C06/'], 'engines': ALL4, 'level': 'model_checking'},
-    'C07': {'prefixes': ['C07/'], 'engines': ALL4 + API4, 'level': 'model_checking'},
-    'C08': {'prefixes': ['C08/'], 'engines': API4 + ALL4, 'level': 'fault_enumeration'},
-    'C15': {'prefixes': ['C15/'], 'engines': TREE, 'level': 'model_checking'},
-    'C16': {'prefixes': ['C16/'], 'engines': TREE, 'level': 'model_checking'},
-    'C17': {'prefixes': ['C17/'], 'engines': ['lat:rrtstar'], 'level': 'model_checking'},
-    'C18': {'prefixes': ['C18/'], 'engines': ['lat:prm'], 'level': 'model_checking'},
+    'C01': {'prefixes': ['C01/'], 'engines': ALL4 + REAL, 'level': 'model_checking'},
+    'C02': {'prefixes': ['C02/'], 'engines': ALL4 + REAL, 'level': 'model_checking'},
+    'C03': {'prefixes': ['C03/'], 'engines': ALL4 + REAL, 'level': 'model_checking'},
+    'C04': {'prefixes': ['C04/'], 'engines': TREE + REAL, 'level': 'model_checking'},
+    'C05': {'prefixes': ['C05/'], 'engines': ALL4 + REAL, 'level': 'model_checking'},
+    'C06': {'prefixes': ['C06/'], 'engines': ALL4 + REAL, 'level': 'model_checking'},
+    'C07': {'prefixes': ['C07/'], 'engines': ALL4 + API4 + REAL, 'level': 'model_checking'},
+    'C08': {'prefixes': ['C08/'], 'engines': API4 + ALL4 + REAL, 'level': 'fault_enumeration'},
+    'C15': {'prefixes': ['C15/'], 'engines': TREE + REAL, 'level': 'model_checking'},
+    'C16': {'prefixes': ['C16/'], 'engines': TREE + REAL, 'level': 'model_checking'},
+    'C17': {'prefixes': ['C17/'], 'engines': ['lat:rrtstar'] + REAL, 'level': 'model_checking'},
+    'C18': {'prefixes': ['C18/'], 'engines': ['lat:prm'] + REAL, 'level': 'model_checking'},
 }
 
 
@@ -355,6 +434,8 @@ def run_engine(name, tier, seed):
         r = lattice_engine(arg, tier, seed)
     elif kind == 'api':
         r = lattice_engine(arg, tier, seed, api=True)
+    elif kind == 'real':
+        r = real_engine(tier, seed)
     else:
         raise ToolError('unknown engine ' + name)
     r['wall_s'] = round(time.time() - t0, 1)
@@ -389,6 +470,8 @@ def finding_matches(f, pid, v):
     if 'planner' in f and f['planner'] != v.get('planner'):
         return False
     if 'mode' in f and f['mode'] != v.get('mode'):
+        return False
+    if 'space_re' in f and not re.fullmatch(f['space_re'], v.get('space') or ''):
         return False
     return True
 
@@ -480,11 +563,17 @@ def run_replay(pid, path):
     shutil.rmtree(work, ignore_errors=True)
     os.makedirs(work)
     hist = os.path.join(work, 'hist.ndjson')
-    open(hist, 'w').write(json.dumps(rp['input']) + '\n')
     trace = os.path.join(work, 'trace.ndjson')
-    p = run([os.path.join(HARNESS_BIN, 'latreplay'), '--in', hist, '--out', trace], stdout=subprocess.DEVNULL)
+    if rp['input'].get('realrun'):
+        i = rp['input']
+        p = run([os.path.join(HARNESS_BIN, 'realrun'), '--out', trace, '--seed', str(i['seed']), '--tier', i['tier'],
+                 '--only', str(i['run'])], stdout=subprocess.DEVNULL)
+    else:
+        open(hist, 'w').write(json.dumps(rp['input']) + '\n')
+        p = run([os.path.join(HARNESS_BIN, 'latreplay'), '--in', hist, '--out', trace, '--twice', '--seed', str(rp.get('seed', 1))],
+                stdout=subprocess.DEVNULL)
     if p.returncode != 0:
-        raise ToolError('latreplay failed: ' + p.stderr[-1000:])
+        raise ToolError('replay run failed: ' + p.stderr[-1000:])
     viols, _ = tlc_monitor([trace])
     print(open(trace).read())
     hit = [v for v in viols if rp['label'] in v['labels']]
